@@ -18,6 +18,7 @@ import (
 
 	"verifharness/kit"
 	"verifharness/refmodel"
+	"verifharness/simnet"
 )
 
 type C07Q struct {
@@ -25,6 +26,9 @@ type C07Q struct {
 	API  string // query | ping | findnode | getpeers | get
 	// Held: the query's first datagram is parked inside the socket write until a release event.
 	Held bool
+	// WriteFails: the socket refuses this query's datagram (after the parking, if Held): the call fails
+	// without anything having been sent
+	WriteFails bool
 }
 
 type C07Ev struct {
@@ -43,16 +47,19 @@ type C07Sc struct {
 	Evs   []C07Ev
 }
 
-var c07Variants = []string{"correct", "correct", "correct-error", "wrong-port", "wrong-ip", "mapped", "t-inc", "t-prefix", "t-ext", "t-empty", "t-other", "t-other", "dup", "dup", "query-same-t", "overlong-t"}
+var c07Variants = []string{"correct", "correct", "correct-error", "wrong-port", "wrong-port-low-bit", "wrong-ip", "mapped", "t-inc", "t-prefix", "t-ext", "t-empty", "t-other", "t-other", "dup", "dup", "query-same-t", "overlong-t"}
 
 func genC07(t *rapid.T) C07Sc {
 	sc := C07Sc{Dual: rapid.Bool().Draw(t, "dual")}
 	nd := rapid.IntRange(1, 4).Draw(t, "ndests")
+	// two ports per scenario: adjacent ones from all over the 16-bit range
+	portA := pick(t, "d.porta", 6881, 6881, 1, 255, 256, 0x7fff, 0x8000, 55296, 55555, 57342, 65532, 65533, 65534)
+	ports := []int{portA, portA + 1}
 	seen := map[string]bool{}
 	for len(sc.Dests) < nd {
 		var s Src
 		// tiny pool: same IP / other port and same port / other IP are frequent
-		port := rapid.SampledFrom([]int{6881, 6882}).Draw(t, "d.port")
+		port := rapid.SampledFrom(ports).Draw(t, "d.port")
 		if sc.Dual && rapid.Bool().Draw(t, "d.v6") {
 			ip := net.ParseIP("2001:db8::1").To16()
 			ip[15] = byte(rapid.IntRange(1, 2).Draw(t, "d.host"))
@@ -77,7 +84,7 @@ func genC07(t *rapid.T) C07Sc {
 	for i := 0; i < nq; i++ {
 		sc.Qs = append(sc.Qs, C07Q{Dest: rapid.IntRange(0, len(sc.Dests)-1).Draw(t, "q.dest"),
 			API:  rapid.SampledFrom([]string{"query", "query", "query", "ping", "findnode", "getpeers", "get"}).Draw(t, "q.api"),
-			Held: rapid.IntRange(0, 4).Draw(t, "q.held") == 0})
+			Held: rapid.IntRange(0, 4).Draw(t, "q.held") == 0, WriteFails: uniformInt(t, 6, "q.writefails") == 0})
 	}
 	started := 0
 	n := rapid.IntRange(nq, nq+deep(t, 50)).Draw(t, "nevents")
@@ -141,6 +148,7 @@ func runC07(sc C07Sc, c *kit.Case) *kit.Violation {
 	}
 	// arrival of the next query datagram at the socket
 	var mu sync.Mutex
+	failT := map[string]bool{} // transaction IDs whose datagrams the socket refuses
 	var starting *c07q
 	arrived := make(chan string, 1)
 	sv.C.BeforeWrite = func(to *net.UDPAddr, data []byte) {
@@ -159,10 +167,32 @@ func runC07(sc C07Sc, c *kit.Case) *kit.Violation {
 			return
 		}
 		t, _ := v.Get("t")
+		if q.spec.WriteFails {
+			mu.Lock()
+			failT[t.S] = true
+			mu.Unlock()
+		}
 		arrived <- t.S
 		if q.spec.Held {
 			<-q.release
 		}
+	}
+	sv.C.OnWrite = func(o simnet.Out) (bool, error) {
+		v, _, err := refmodel.Parse(o.Data)
+		if err != nil {
+			return false, nil
+		}
+		if y, _ := v.Get("y"); y.S != "q" {
+			return false, nil
+		}
+		tv, _ := v.Get("t")
+		mu.Lock()
+		fail := failT[tv.S]
+		mu.Unlock()
+		if fail {
+			return false, errors.New("simulated socket write failure")
+		}
+		return false, nil
 	}
 	defer func() {
 		// never leave a parked sender or a pending call behind
@@ -230,7 +260,14 @@ func runC07(sc C07Sc, c *kit.Case) *kit.Violation {
 				return kit.Violatef("C07:query-completed-by-wrong-datagram", "%s: query #%d (%s to %v, t=%q) returned (err=%v, reply id=%q) although no datagram from its destination with its transaction ID was delivered", what, i, q.spec.API, q.dest, q.t, got.res.Err, replyMarker(got.res))
 			case got != nil:
 				q.returned = true
-				if q.expect == "canceled" {
+				mu.Lock()
+				delete(failT, q.t) // a later query may legitimately be given this ID again
+				mu.Unlock()
+				if q.expect == "error" {
+					if got.res.Err == nil {
+						return kit.Violatef("C07:query-completed-by-wrong-datagram", "%s: query #%d (t=%q to %v) never got its datagram onto the wire (the socket refused it) and no datagram with its transaction ID was delivered, yet it returned a reply (marker %q)", what, i, q.t, q.dest, replyMarker(got.res))
+					}
+				} else if q.expect == "canceled" {
 					if !errors.Is(got.res.Err, context.Canceled) {
 						return kit.Violatef("C07:cancelled-query-got-reply", "%s: query #%d was cancelled before any matching reply; it returned err=%v reply=%q", what, i, got.res.Err, replyMarker(got.res))
 					}
@@ -296,6 +333,10 @@ func runC07(sc C07Sc, c *kit.Case) *kit.Violation {
 		q.hasCtx = q.spec.API == "getpeers" || q.spec.API == "get" || q.spec.API == "query"
 		q.started = true
 		q.held = q.spec.Held
+		if q.spec.WriteFails && !q.held {
+			q.expect, q.popped = "error", true // its only datagram is refused: it fails, and nothing can complete it
+			c.Label("write-fails")
+		}
 		startedIdx = append(startedIdx, i)
 		// transaction IDs of simultaneously outstanding queries are pairwise distinct
 		for j, o := range qs {
@@ -344,6 +385,13 @@ func runC07(sc C07Sc, c *kit.Case) *kit.Violation {
 			}
 			q.held = false
 			close(q.release)
+			if q.spec.WriteFails {
+				if q.expect == "" {
+					q.expect = "error"
+				}
+				q.popped = true
+				c.Label("write-fails-after-parking")
+			}
 			what += fmt.Sprintf(" #%d", startedIdx[ev.Q%len(startedIdx)])
 			c.Label("release-held")
 		case "dgram":
@@ -363,6 +411,11 @@ func runC07(sc C07Sc, c *kit.Case) *kit.Violation {
 				isErr = true
 			case "wrong-port":
 				from.Port = 1 + q.dest.Port%65535
+			case "wrong-port-low-bit":
+				from.Port = q.dest.Port ^ 1
+				if from.Port == 0 {
+					from.Port = 2
+				}
 			case "wrong-ip":
 				from.IP[len(from.IP)-1] ^= 3
 			case "mapped":
@@ -485,6 +538,12 @@ func runC07(sc C07Sc, c *kit.Case) *kit.Violation {
 		if q.started && q.held {
 			q.held = false
 			close(q.release)
+			if q.spec.WriteFails {
+				if q.expect == "" {
+					q.expect = "error"
+				}
+				q.popped = true
+			}
 		}
 	}
 	if !sv.barrier(c) {
